@@ -294,12 +294,11 @@ Section Lookups.
       unfold save_block.
       destruct (lk_hashes cp s (hheight hd)) as [s1 ohs] eqn:E1.
       destruct (lk_hashes_ok _ _ _ _ Hi E1) as (-> & Hi1 & D1).
-      unfold fill_hashes at 1 3. rewrite D1.
+      rewrite D1.
       destruct Hi1 as (H1 & H2 & H3 & H4 & H5).
-      set (hs := match look (hheight hd) (d_hashes (s_db s)) with Some l => l | None => [] end).
-      assert (Ehs : match look (hheight hd) (d_hashes (s_db s)) with Some l => Some l | None => Some [] end = Some hs)
-        by (unfold hs; destruct (look (hheight hd) (d_hashes (s_db s))); reflexivity).
-      rewrite Ehs. intros X. inversion X; subst s' r. clear X.
+      destruct (fill_hashes (s_db s) (hheight hd)) as [hs |] eqn:Ehs;
+        [| unfold fill_hashes in Ehs; destruct (look (hheight hd) (d_hashes (s_db s))); discriminate].
+      intros X. inversion X; subst s' r. clear X.
       split; [reflexivity |]. split; [reflexivity |].
       destruct s1 as [d ch ct chs cm cc]. cbn in *. subst d.
       repeat split; cbn.
@@ -624,6 +623,17 @@ Section Lookups.
 
   Lemma new_store_bounded d : caches_bounded (new_store d).
   Proof. repeat split; apply bounded_nil. Qed.
+
+  Lemma reachable_bounded d ops : caches_bounded (fst (run_fixed cp (new_store d) ops)).
+  Proof. apply run_bounded. apply new_store_bounded. Qed.
+
+  Lemma reads_change_nothing_and_keep_db s rs rest :
+    inv s -> Forall (fun o => is_read o = true) rs ->
+    snd (run_fixed cp (fst (run_fixed cp s rs)) rest) = snd (run_fixed cp s rest) /\
+    s_db (fst (run_fixed cp s rs)) = s_db s.
+  Proof.
+    intros Hi H. split; [exact (reads_change_nothing s rs rest Hi H) | exact (reads_keep_store_db s rs Hi H)].
+  Qed.
 End Lookups.
 
 (* ---- the statements are not vacuous -------------------------------------------------
@@ -631,6 +641,7 @@ End Lookups.
    rewritten while cached, a height re-pointed while cached, a checkpoint
    rewritten while cached and a checkpoint read three times. *)
 Definition ex_caps : caps := mkCaps 1 1 1 1 1.
+Local Open Scope N_scope.
 Definition ex_ops : list op :=
   [ OSaveBlock 1 (mkH 7 1 [5]) [10; 11]; OSaveBlock 2 (mkH 7 2 []) [12];
     OSaveCheckpoints [mkC 7 1 1 3 [9]]; OGetHeader 1; OGetHeader 2; OGetHeader 1;
